@@ -1107,7 +1107,31 @@ pub struct Subject {
 
 pub fn gen_subject(ctx: &Ctx, stream: u64, i: usize, growing: bool) -> Subject {
     let mut rng = ctx.rng(stream, i as u64);
-    match rng.weighted(&[5, 2, 6]) {
+    match rng.weighted(&[5, 2, 6, 3]) {
+        3 => {
+            // overlapping impls of a marker trait: tables with several answers, some of which are
+            // instances of others (`V<P0>`, `V<A>`, `V<B>`, `W<A>` ..), declaration order random
+            let pool = ["V<P0>", "V<A>", "V<B>", "W<A>", "W<P0>", "A", "B", "V<V<P0>>", "V<W<P0>>", "W<B>"];
+            let k = 3 + rng.usize_below(5);
+            let mut text = String::from("struct A {}\nstruct B {}\nstruct V<T> {}\nstruct W<T> {}\n#[marker] trait M {}\n#[marker] trait N {}\n");
+            for _ in 0..k {
+                let h = pool[rng.usize_below(pool.len())];
+                let b = if h.contains("P0") { "<P0>" } else { "" };
+                let wc = if h.contains("P0") && rng.chance(1, 5) { " where P0: M" } else { "" };
+                text.push_str(&format!("impl{} M for {}{} {{}}\n", b, h, wc));
+            }
+            if rng.chance(1, 2) {
+                text.push_str("impl<P0> N for P0 where P0: M {}\n");
+            } else {
+                text.push_str("impl<P0> N for V<P0> where V<P0>: M {}\n");
+            }
+            let mut goals: Vec<String> = vec!["exists<T> { T: M }".into(), "exists<T> { V<T>: M }".into(), "exists<T> { T: N }".into(), "exists<T> { W<T>: M }".into(), "V<A>: M".into()];
+            for a in (1..goals.len()).rev() {
+                let b = rng.usize_below(a + 1);
+                goals.swap(a, b);
+            }
+            Subject { text, goal_texts: goals, family: "overlap".into(), coinductive: false }
+        }
         0 => {
             let g = gen_graph(&mut rng);
             let mut ks: Vec<usize> = (0..g.n()).collect();
@@ -1311,7 +1335,11 @@ pub fn oracle_c10(ctx: &Ctx, out: &mut Out, s: &Subject, rng: &mut Rng) {
                     break;
                 }
                 if a != fresh[gi] {
-                    let classifier = history_classifier(name, s, &a, &fresh[gi]);
+                    // the same goal posed twice to a fresh SLG solver: the second query re-reads the
+                    // completed table, whose answers are in the order the first query produced them
+                    // (the order a fresh solver produces), so this is not the order dependence F26
+                    let repeated = name == "slg" && pos == 1 && seq[0] == seq[1] && !(s.coinductive || s.text.contains("#[auto]"));
+                    let classifier = if repeated { "slg_repeated_query_differs" } else { history_classifier(name, s, &a, &fresh[gi]) };
                     out.fail(
                         &format!(
                             "{}: after solving {:?} the goal `{}` is answered {} but a fresh solver answers {}",
